@@ -15,6 +15,8 @@ CONSTANTS
   LifoQueue = FALSE
   DrainOnlyAtStop = FALSE
   ErrKeepsPolling = FALSE
+  MaxPerPoll = 0
+  Rewake = FALSE
 SPECIFICATION FairSpec
 PROPERTIES C06w_StopAnswered
 CHECK_DEADLOCK FALSE
